@@ -6,6 +6,12 @@
   `Inv` (+ `BadNF`: no rejected root is fixed) is carried through the fold over the initial stops (`fold_ok`) and through
   the repair loop (`repair_ok`); `run_final` collects what holds of a returned state.
 
+  ONE-OF roots (`Cfg.oneOf`): `stepTail` has the extra error branch (a second alternative while one is attached); the
+  attach case of `stepTail_cases` records that no member of a one-of root was attached before, `Inv.one_of` carries
+  "at most one attached member" through the fold and the repair loop (`oneof_at_most_one`). Coverage no longer implies
+  that all the members are listed for a one-of root: `covered_listed`, `on_route_of_root`, `units_whole` are for roots
+  that are not one-of (`ho`); `unit_whole_L` / `unit_whole` (stops of one stops-unit) hold for every root.
+
   FLAGGED: `filed_iff` as first stated (without `hL : ∀ s ∈ c.L, s ∈ c.stops`) is false of the model — counterexample
   `cxFiled` / theorem `filed_iff_needs_hL`. `filed_iff_L` is the variant that holds with no extra hypothesis.
 -/
@@ -37,6 +43,7 @@ def stepTail (c : Cfg) (st : St) (u r : Nat) : St :=
   if c.skipRejected && st.bad.contains r then st else
   if c.coverCheck && !rootCovered c r then
     (if rootFixed c r then { st with err := true } else { st with bad := r :: st.bad })
+  else if c.oneOf.contains r && st.att.any (fun m => c.rootOf m = r) then { st with err := true }
   else if moveRefused c st u (stopPositions c st.att u) then { st with err := true }
   else
     if c.sc.est.contains u then rejectF c r (rootFixed c r) st
@@ -87,7 +94,7 @@ theorem stepTail_cases (c : Cfg) (h1 : c.skipRejected = true) (h2 : c.detachMemb
        ((stepTail c st u r).att = dropRoot c r st.att ∧ (stepTail c st u r).bad = r :: st.bad ∧
           (c.rootFixedAtAttach = true → rootFixed c r = false)) ∨
        ((stepTail c st u r).att = u :: st.att ∧ (stepTail c st u r).bad = st.bad ∧ r ∉ st.bad ∧
-          rootCovered c r = true))) := by
+          rootCovered c r = true ∧ (r ∈ c.oneOf → ∀ m ∈ st.att, c.rootOf m ≠ r)))) := by
   unfold stepTail
   simp only [h1, h3, Bool.true_and]
   by_cases hb : st.bad.contains r = true
@@ -100,6 +107,14 @@ theorem stepTail_cases (c : Cfg) (h1 : c.skipRejected = true) (h2 : c.detachMemb
   by_cases hc : rootCovered c r = true
   · have : ¬ ((!rootCovered c r) = true) := by simp [hc]
     rw [if_neg this]
+    by_cases ho : (c.oneOf.contains r && st.att.any (fun m => c.rootOf m = r)) = true
+    · left; rw [if_pos ho]
+    rw [if_neg ho]
+    have ho' : r ∈ c.oneOf → ∀ m ∈ st.att, c.rootOf m ≠ r := by
+      intro hr m hm hmr
+      apply ho
+      simp only [Bool.and_eq_true, List.contains_eq_mem, decide_eq_true_eq, List.any_eq_true]
+      exact ⟨hr, m, hm, hmr⟩
     by_cases hm : moveRefused c st u (stopPositions c st.att u) = true
     · left; rw [if_pos hm]
     rw [if_neg hm]
@@ -118,7 +133,7 @@ theorem stepTail_cases (c : Cfg) (h1 : c.skipRejected = true) (h2 : c.detachMemb
       · refine Or.inr ⟨h5, h6, h7, Or.inr (Or.inr (Or.inl ⟨h9, h8, fun h4 => ?_⟩))⟩
         simpa [h4] using hf
     · right
-      exact ⟨rfl, rfl, rfl, Or.inr (Or.inr (Or.inr ⟨rfl, rfl, hb', hc⟩))⟩
+      exact ⟨rfl, rfl, rfl, Or.inr (Or.inr (Or.inr ⟨rfl, rfl, hb', hc, ho'⟩))⟩
   · have hc' : rootCovered c r = false := by simpa using hc
     have : (!rootCovered c r) = true := by simp [hc']
     rw [if_pos this]
@@ -136,6 +151,8 @@ structure Inv (c : Cfg) (st : St) : Prop where
   done_att : ∀ u ∈ st.done, c.rootOf u ∈ st.ord ∧ (c.rootOf u ∉ st.bad → u ∈ st.att)
   ord_done : ∀ r ∈ st.ord, ∃ u ∈ st.done, c.rootOf u = r
   done_L : ∀ u ∈ st.done, ∃ s ∈ c.L, c.unitOf s = u
+  /-- at most one attached member of a one-of root -/
+  one_of : ∀ u ∈ st.att, ∀ u' ∈ st.att, c.rootOf u ∈ c.oneOf → c.rootOf u = c.rootOf u' → u = u'
 
 def BadNF (c : Cfg) (st : St) : Prop := ∀ r ∈ st.bad, rootFixed c r = false
 
@@ -159,7 +176,7 @@ theorem Inv_init (c : Cfg) : Inv c {} := by
 theorem Inv_drop (c : Cfg) (st st' : St) (r : Nat) (hinv : Inv c st)
     (hatt : st'.att = dropRoot c r st.att) (hbad : st'.bad = r :: st.bad) (hord : st'.ord = st.ord)
     (hdone : st'.done = st.done) : Inv c st' := by
-  obtain ⟨a, b, o, l⟩ := hinv
+  obtain ⟨a, b, o, l, e⟩ := hinv
   constructor
   · intro u hu
     rw [hatt, mem_dropRoot] at hu
@@ -176,6 +193,9 @@ theorem Inv_drop (c : Cfg) (st st' : St) (r : Nat) (hinv : Inv c st)
     exact ⟨(b u hu).2 h.2, h.1⟩
   · rw [hord, hdone]; exact o
   · rw [hdone]; exact l
+  · intro u hu u' hu'
+    rw [hatt, mem_dropRoot] at hu hu'
+    exact e u hu.1 u' hu'.1
 
 theorem Inv_step (c : Cfg) (st st' : St) (u : Nat) (hinv : Inv c st) (huL : ∃ s ∈ c.L, c.unitOf s = u)
     (hdone : st'.done = u :: st.done)
@@ -186,8 +206,9 @@ theorem Inv_step (c : Cfg) (st st' : St) (u : Nat) (hinv : Inv c st) (huL : ∃ 
        (st'.att = dropRoot c (c.rootOf u) st.att ∧ st'.bad = c.rootOf u :: st.bad ∧
           (c.rootFixedAtAttach = true → rootFixed c (c.rootOf u) = false)) ∨
        (st'.att = u :: st.att ∧ st'.bad = st.bad ∧ c.rootOf u ∉ st.bad ∧
-          rootCovered c (c.rootOf u) = true)) : Inv c st' := by
-  obtain ⟨a, b, o, l⟩ := hinv
+          rootCovered c (c.rootOf u) = true ∧ (c.rootOf u ∈ c.oneOf → ∀ m ∈ st.att, c.rootOf m ≠ c.rootOf u))) :
+    Inv c st' := by
+  obtain ⟨a, b, o, l, e⟩ := hinv
   have ho : ∀ x, x ∈ st'.ord ↔ x = c.rootOf u ∨ x ∈ st.ord := by
     intro x; rw [hord]; exact mem_ordUpd _ _ _
   have hd : ∀ x, x ∈ st'.done ↔ x = u ∨ x ∈ st.done := by
@@ -203,8 +224,8 @@ theorem Inv_step (c : Cfg) (st st' : St) (u : Nat) (hinv : Inv c st) (huL : ∃ 
     rcases (hd v).1 hv with rfl | hv
     · exact huL
     · exact l v hv
-  rcases hc with ⟨h1, h2, h3⟩ | ⟨h1, h2, h3, _⟩ | ⟨h1, h2, _⟩ | ⟨h1, h2, h3, h4⟩
-  · refine ⟨?_, ?_, hO, hL⟩
+  rcases hc with ⟨h1, h2, h3⟩ | ⟨h1, h2, h3, _⟩ | ⟨h1, h2, _⟩ | ⟨h1, h2, h3, h4, h5⟩
+  · refine ⟨?_, ?_, hO, hL, by rw [h1]; exact e⟩
     · intro v hv
       rw [h1] at hv
       obtain ⟨p1, p2, p3, p4⟩ := a v hv
@@ -215,7 +236,7 @@ theorem Inv_step (c : Cfg) (st st' : St) (u : Nat) (hinv : Inv c st) (huL : ∃ 
       rcases (hd v).1 hv with rfl | hv
       · exact ⟨(ho _).2 (Or.inl rfl), fun h => absurd h3 h⟩
       · exact ⟨(ho _).2 (Or.inr (b v hv).1), (b v hv).2⟩
-  · refine ⟨?_, ?_, hO, hL⟩
+  · refine ⟨?_, ?_, hO, hL, by rw [h1]; exact e⟩
     · intro v hv
       rw [h1] at hv
       obtain ⟨p1, p2, p3, p4⟩ := a v hv
@@ -231,7 +252,11 @@ theorem Inv_step (c : Cfg) (st st' : St) (u : Nat) (hinv : Inv c st) (huL : ∃ 
       rcases (hd v).1 hv with rfl | hv
       · exact ⟨(ho _).2 (Or.inl rfl), fun h => absurd rfl h.1⟩
       · exact ⟨(ho _).2 (Or.inr (b v hv).1), fun h => (b v hv).2 h.2⟩
-  · refine ⟨?_, ?_, hO, hL⟩
+  · refine ⟨?_, ?_, hO, hL, ?_⟩
+    rotate_left 2
+    · intro v hv v' hv'
+      rw [h1, mem_dropRoot] at hv hv'
+      exact e v hv.1 v' hv'.1
     · intro v hv
       rw [h1, mem_dropRoot] at hv
       obtain ⟨p1, p2, p3, p4⟩ := a v hv.1
@@ -245,7 +270,15 @@ theorem Inv_step (c : Cfg) (st st' : St) (u : Nat) (hinv : Inv c st) (huL : ∃ 
       rcases (hd v).1 hv with rfl | hv
       · exact ⟨(ho _).2 (Or.inl rfl), fun h => absurd rfl h.1⟩
       · exact ⟨(ho _).2 (Or.inr (b v hv).1), fun h => ⟨(b v hv).2 h.2, h.1⟩⟩
-  · refine ⟨?_, ?_, hO, hL⟩
+  · refine ⟨?_, ?_, hO, hL, ?_⟩
+    rotate_left 2
+    · intro v hv v' hv' hvo hvv
+      rw [h1] at hv hv'
+      rcases List.mem_cons.1 hv with e1 | m1 <;> rcases List.mem_cons.1 hv' with e2 | m2
+      · rw [e1, e2]
+      · rw [e1] at hvo hvv; exact absurd hvv.symm (h5 hvo v' m2)
+      · rw [e2] at hvv; rw [hvv] at hvo; exact absurd hvv (h5 hvo v m1)
+      · exact e v m1 v' m2 hvo hvv
     · intro v hv
       rw [h1] at hv
       rw [h2]
@@ -363,7 +396,7 @@ theorem repair_ok (c : Cfg) (fuel : Nat) (st : St) (hinv : Inv c st) (hok : (rep
     simp only [] at hok ⊢
     split at hok
     · rename_i hv
-      exact ⟨⟨hinv.1, hinv.2, hinv.3, hinv.4⟩, rfl, hv, fun _ h => h⟩
+      exact ⟨⟨hinv.1, hinv.2, hinv.3, hinv.4, hinv.5⟩, rfl, hv, fun _ h => h⟩
     · rename_i i hv
       split at hok
       · exact Bool.noConfusion hok
@@ -411,9 +444,10 @@ theorem run_final (c : Cfg) (h1 : c.skipRejected = true) (h2 : c.detachMembers =
   rw [d2]; exact m1 s hs
 
 theorem covered_listed (c : Cfg) (hv : validate c = true) (r : Nat) (hc : rootCovered c r = true)
-    (s : Nat) (hs : s ∈ c.stops) (hr : root c s = r) : s ∈ c.L := by
+    (ho : r ∉ c.oneOf) (s : Nat) (hs : s ∈ c.stops) (hr : root c s = r) : s ∈ c.L := by
   unfold rootCovered at hc
-  rw [List.all_eq_true] at hc
+  have ho' : c.oneOf.contains r = false := by simpa using ho
+  rw [ho', Bool.false_or, List.all_eq_true] at hc
   have := hc s hs
   simp only [hr, bne_self_eq_false, Bool.false_or, List.any_eq_true, decide_eq_true_eq] at this
   obtain ⟨l, hl, hlu⟩ := this
@@ -455,20 +489,21 @@ theorem final_feasible (c : Cfg) (hok : (run c).err = false) : fullViol c (route
       · exact ih _ hok
 
 theorem on_route_of_root (c : Cfg) (st : St) (hv : validate c = true) (hF : Final c st)
-    (s s' : Nat) (hs' : s' ∈ c.stops) (hr : root c s = root c s') (h : s ∈ routeOf c st.att) :
-    s' ∈ routeOf c st.att := by
+    (s s' : Nat) (hs' : s' ∈ c.stops) (hr : root c s = root c s') (ho : root c s ∉ c.oneOf)
+    (h : s ∈ routeOf c st.att) : s' ∈ routeOf c st.att := by
   rw [mem_routeOf] at h ⊢
   obtain ⟨p1, _, _, p4⟩ := hF.inv.att_good _ h.2
-  have hl' : s' ∈ c.L := covered_listed c hv _ p4 s' hs' hr.symm
+  have hl' : s' ∈ c.L := covered_listed c hv _ p4 ho s' hs' hr.symm
   refine ⟨hl', (hF.inv.done_att _ (hF.all_done s' hl')).2 ?_⟩
   have : c.rootOf (c.unitOf s') = c.rootOf (c.unitOf s) := hr.symm
   rw [this]; exact p1
 
 theorem units_whole (c : Cfg) (h1 : c.skipRejected = true) (h2 : c.detachMembers = true) (h3 : c.coverCheck = true)
-    (hok : (run c).err = false) (s s' : Nat) (hs : s ∈ c.stops) (hs' : s' ∈ c.stops) (hr : root c s = root c s') :
+    (hok : (run c).err = false) (s s' : Nat) (hs : s ∈ c.stops) (hs' : s' ∈ c.stops) (hr : root c s = root c s')
+    (ho : root c s ∉ c.oneOf) :
     s ∈ routeOf c (run c).att ↔ s' ∈ routeOf c (run c).att := by
   obtain ⟨hv, hF⟩ := run_final c h1 h2 h3 hok
-  exact ⟨on_route_of_root c _ hv hF s s' hs' hr, on_route_of_root c _ hv hF s' s hs hr.symm⟩
+  exact ⟨on_route_of_root c _ hv hF s s' hs' hr ho, on_route_of_root c _ hv hF s' s hs hr.symm (hr ▸ ho)⟩
 
 /-- NOTE the extra hypothesis `hL` (the initial stops are stops of the model): without it the statement is false,
 see `filed_iff_needs_hL`. -/
@@ -550,5 +585,50 @@ theorem fixed_stay (c : Cfg) (h1 : c.skipRejected = true) (h2 : c.detachMembers 
     exact ⟨s, hs, by simp [root, hf]⟩
   rw [this] at hnf
   exact Bool.noConfusion hnf
+
+/-! ### one-of roots -/
+
+/-- at most one alternative of a one-of root is attached in a returned state -/
+theorem oneof_at_most_one (c : Cfg) (h1 : c.skipRejected = true) (h2 : c.detachMembers = true) (h3 : c.coverCheck = true)
+    (hok : (run c).err = false) (r : Nat) (hr : r ∈ c.oneOf) :
+    ∀ u u', u ∈ (run c).att → u' ∈ (run c).att → c.rootOf u = r → c.rootOf u' = r → u = u' := by
+  obtain ⟨_, hF⟩ := run_final c h1 h2 h3 hok
+  intro u u' hu hu' hur hur'
+  exact hF.inv.one_of u hu u' hu' (hur ▸ hr) (hur.trans hur'.symm)
+
+/-- … hence all the stops of a one-of root that are on the route belong to ONE stops-unit -/
+theorem oneof_route_one_unit (c : Cfg) (h1 : c.skipRejected = true) (h2 : c.detachMembers = true) (h3 : c.coverCheck = true)
+    (hok : (run c).err = false) (s s' : Nat) (hr : root c s ∈ c.oneOf) (hrr : root c s = root c s')
+    (hs : s ∈ routeOf c (run c).att) (hs' : s' ∈ routeOf c (run c).att) : c.unitOf s = c.unitOf s' := by
+  rw [mem_routeOf] at hs hs'
+  exact oneof_at_most_one c h1 h2 h3 hok _ hr _ _ hs.2 hs'.2 rfl hrr.symm
+
+/-- two initial stops of the same stops-unit: both on the route or both off it (any attached set, any root) -/
+theorem unit_whole_L (c : Cfg) (att : List Nat) (s s' : Nat) (hs : s ∈ c.L) (hs' : s' ∈ c.L)
+    (hu : c.unitOf s = c.unitOf s') : s ∈ routeOf c att ↔ s' ∈ routeOf c att := by
+  rw [mem_routeOf, mem_routeOf, hu]
+  exact ⟨fun h => ⟨hs', h.2⟩, fun h => ⟨hs, h.2⟩⟩
+
+theorem validate_listed (c : Cfg) (hv : validate c = true) (s s' : Nat) (hs : s ∈ c.L) (hs' : s' ∈ c.stops)
+    (hu : c.unitOf s = c.unitOf s') : s' ∈ c.L := by
+  unfold validate at hv
+  rw [List.all_eq_true] at hv
+  have h := hv s hs
+  unfold unitListed at h
+  rw [List.all_eq_true] at h
+  have := h s' hs'
+  simpa [hu] using this
+
+/-- the same for two stops of the MODEL (a returned state has passed `validate`: a listed stops-unit is listed whole) -/
+theorem unit_whole (c : Cfg) (hok : (run c).err = false) (s s' : Nat) (hs : s ∈ c.stops) (hs' : s' ∈ c.stops)
+    (hu : c.unitOf s = c.unitOf s') : s ∈ routeOf c (run c).att ↔ s' ∈ routeOf c (run c).att := by
+  obtain ⟨hv, _⟩ := run_ok c hok
+  constructor
+  · intro h
+    have hl := ((mem_routeOf c _ s).1 h).1
+    exact (unit_whole_L c _ s s' hl (validate_listed c hv s s' hl hs' hu) hu).1 h
+  · intro h
+    have hl := ((mem_routeOf c _ s').1 h).1
+    exact (unit_whole_L c _ s s' (validate_listed c hv s' s hl hs hu.symm) hl hu).2 h
 
 end NR.Proofs.Init
